@@ -1,7 +1,7 @@
 """Human-written parts of MANIFEST.json (claims, notes). gen_manifest.py assembles the file."""
 
 HOOKS = {
-    "guard": "kani / verif_replay (cfg names; set only by cargo-kani resp. by ./check --replay)",
+    "guard": "kani / verif_replay (cfg names; set only by cargo-kani resp. by the native replay build of ./check)",
     "enable": "no hook lives in /repo: ./check copies /repo's working tree to a scratch directory and appends `#[cfg(any(kani, verif_replay))] #[path=\"/verif/kani/<group>.rs\"] mod verif_kani_<group>;` lines to module files there; Verus units are extracted from the same snapshot by /verif/xtract",
     "baseline_off_cmd": "cd /repo && cargo test --workspace --no-fail-fast --offline",
     "source_commits": [],
@@ -9,14 +9,124 @@ HOOKS = {
 }
 
 ENGINES = [
-    {"name": "kani", "path": "/verif/kani", "kind_free_text": "Kani 0.68 / CBMC 6.11 assume-assert contract harnesses over the unmodified crate (scratch copy), full-domain symbolic inputs",
-     "serves_properties": ["C15"]},
+    {"name": "verus", "path": "/verif/contracts",
+     "kind_free_text": "Verus 0.2026.09.13 (z3) on single-file units whose function bodies are cut mechanically from /repo by /verif/xtract (syn) on every run; contracts, loop invariants and proof hints spliced from contracts/*.vrs; faithfulness re-checked by inverting every logged rewrite; assert(false) canaries guard against vacuity",
+     "serves_properties": ["C01", "C02", "C03", "C04", "C05", "C06", "C07", "C08", "C09", "C10", "C11", "C12", "C13", "C14", "C16", "C17", "C19", "C20"]},
+    {"name": "kani", "path": "/verif/kani",
+     "kind_free_text": "Kani 0.68 / CBMC 6.11 assume-assert contract harnesses over the unmodified crate (scratch copy), full-domain symbolic inputs, lazy buffers of symbolic length up to 2^40; counterexamples replayed natively",
+     "serves_properties": ["C01", "C02", "C04", "C05", "C06", "C07", "C08", "C09", "C11", "C13", "C14", "C15", "C17", "C20"]},
+    {"name": "native-bounded", "path": "/verif/native",
+     "kind_free_text": "bounded stand-ins: the real function run natively over a stated finite input set against an executable copy of the specification (labelled bounded, never counted as proved)",
+     "serves_properties": ["C01", "C05", "C20"]},
 ]
 
-NOTES = ("Contract-based deductive verification. ./check <id> exits 0 (all obligations discharged), 1 (VIOLATION line) or 2 (undecided: tool failure/lost anchor; never a VIOLATION). "
-         "Known findings: /verif/known_findings.json. Scratch copies live under /tmp/msql-verif-scratch and are removed by each run.")
+NOTES = ("Contract-based deductive verification of the real code. ./check <id> exits 0 (all obligations discharged; KNOWN-FINDING lines allowed), "
+         "1 (VIOLATION line) or 2 (undecided: tool failure / lost anchor / resource limit; never a VIOLATION). "
+         "Known findings: /verif/known_findings.json. Scratch copies live under /tmp/msql-verif-scratch and are removed by each run. "
+         "Seeded property-breaking changes used to test the checks: /verif/seeded/.")
+
+V = "Verus proof on text extracted from /repo each run"
+K = "Kani/CBMC contract harness, full-domain symbolic"
 
 CLAIMS = {
+    "C01": {
+        "engine": "verus+kani",
+        "technique": V + " (PacketConn::next: postcondition over every partition of the byte stream, loop invariant, termination) + " + K + " (fullpacket/onepacket, real constant, length <= 2^40); packet() composition: bounded native stand-in",
+        "design_ref": "DESIGN.md section 6 C01",
+        "text": "PacketConn::next is proved against unframe(pending): Ok(Some) returns exactly the next framed message and advances pending by exactly its length, Ok(None) only on an empty stream, Err only on a transport fault, a truncated stream or out-of-order fragment ids; because Transport::read's contract lets every call return any n <= available, this holds for every chunking. fullpacket/onepacket are proved by CBMC with the real 0xFFFFFF constant for inputs of symbolic length. The hub hands exactly that packet to commands::parse (U5).",
+        "note": "packet() (nom fold_many0/pair/map composition) is NOT proved: CBMC exhausts memory; it is checked by a bounded native enumeration on real-size fragments (0..=3 full fragments x 4 final lengths x 8 id patterns x truncation points) and assumed beyond. Assumed: Transport contract (std Read/Write semantics), Vec length <= isize::MAX, vec_drain_prefix/vec_tail_mut helper specs, SwitchableConn behaves as a Transport.",
+    },
+    "C02": {
+        "engine": "verus+kani",
+        "technique": V + " (run: per-iteration assertion shim.log == log0 + dispatch(cmd) for all nine arms) + " + K + " (commands::parse == command table, payload length symbolic <= 2^40)",
+        "design_ref": "DESIGN.md section 6 C02",
+        "text": "commands::parse is proved equal to the protocol's command table for every payload (variant, slices by pointer and length, little-endian ids, Err for unknown/empty/truncated). The real run loop is proved to append to the ghost shim log exactly dispatch(cmd): one callback per shim-bound command with the verbatim payload slice, none for PING/FIELD_LIST/SELECT @@/QUIT/SEND_LONG_DATA, USE -> on_init(bare(..)), non-UTF-8 text -> Err before any callback.",
+        "note": "Assumed: str::from_utf8 (uninterpreted validity predicate), the `USE` name trimming chain trim/trim_end_matches/trim_matches (uninterpreted function `bare`; std's str methods are not verified), <[u8]>::starts_with and byte-string match (helper specs), the ghost-shim model (each callback logs exactly its arguments).",
+    },
+    "C03": {
+        "engine": "verus",
+        "technique": V + ": equational strongest postconditions on every writer method (sent' == sent + owed terminator + payloads), typestate invariant of RowWriter with exists/forall ghost trace, hub replies",
+        "design_ref": "DESIGN.md section 6 C03",
+        "text": "Every method of InitWriter, StatementMetaWriter, QueryResultWriter and RowWriter (except write_row) is proved to extend the packet list by exactly the packets the grammar prescribes: remembered terminator with MORE set on start/complete_one/error and clear on no_more_results/finish, header = count+coldefs+EOF, one packet per ended row, OK(rows) for zero-column sets, shape errors (too few / too many columns) return Err with nothing sent. The hub is proved to answer PING/FIELD_LIST/SELECT @@ itself, to write nothing for CLOSE/SEND_LONG_DATA/QUIT, and to flush at a packet boundary after every command. The default on_init replies OK.",
+        "note": "The induction over arbitrary writer-API programs rests on Rust's ownership discipline (each program is a chain of the proved methods); the composition of the per-method equations into the response grammar is argued in DESIGN.md, not mechanised. RowWriter::write_row is assumed (generic iterator). A shim that returns Ok without using its writer, or that ignores a writer error, is outside the contract. Drop bodies: known findings D10 (C19).",
+    },
+    "C04": {
+        "engine": "verus",
+        "technique": V + ": PacketConn::{write, maybe_end_packet, end_packet, flush} refine an abstract framing machine (step_write/step_end) defined from the property; lemmas fold the machine to frame(m) for any chunking; unframe(frame(m)) == m",
+        "design_ref": "DESIGN.md section 6 C04",
+        "text": "For every buffer and every state the real write/end_packet/flush bodies are proved to implement step_write/step_end exactly (header length == payload length, split at 0xFFFFFF payload bytes, empty terminator after an exact multiple, sequence id per packet); std's write_all loop (transcribed) is proved against write's contract; pure lemmas show that any sequence of writes followed by end puts frame(message) on the wire and that a client-side unframe recovers the message.",
+        "note": "Assumed: Transport::write_all appends exactly the buffer (std Write semantics), byteorder::LittleEndian::write_u24 (checked by Kani k6_byteorder_le), std's write_all transcription matches the installed std.",
+    },
+    "C05": {
+        "engine": "verus+kani",
+        "technique": V + " (seq is part of the framing machine: each emitted packet carries seq and seq' = seq+1 mod 256; hub sets seq = request id + 1 before any write) + " + K + "/bounded native (packet returns the last fragment's id)",
+        "design_ref": "DESIGN.md section 6 C05",
+        "text": "PacketConn::new starts at 0; maybe_end_packet stamps the current id and advances it with wrapping_add (proved as part of step_end); run and init are proved to call set_seq(wrap1(request id)) before any reply byte is written (arithmetic overflow obligations discharged); responses of any number of packets therefore carry consecutive ids modulo 256 by the C04 frame lemma.",
+        "note": "packet()'s 'id of the last fragment' is bounded (native enumeration). Same trusted base as C04.",
+    },
+    "C06": {
+        "engine": "verus+kani",
+        "technique": K + " (mysql_common write_lenenc_int/str for all u64 / all lengths; byte-string and Option text encoders) + " + V + " (RowWriter text rows = concatenation of the cells' encodings, one packet per row)",
+        "design_ref": "DESIGN.md section 6 C06",
+        "text": "Proved: length-encoded integers and strings are written exactly per protocol for every value/length; [u8]/Vec/&T text encoding == lenenc_str(bytes); None == 0xFB and never collides with a string's first byte; in text mode each write_col appends exactly the value's encoding and end_row ends exactly one packet holding the row.",
+        "note": "PARTIAL: the text encoders that go through std formatting (integers, floats, dates, durations: format!(\"{}\")) are NOT under contract (std Display cannot be executed by CBMC nor read by Verus); str/String forwarding is bounded (<= 3 bytes). These are assumptions of this claim.",
+    },
+    "C07": {
+        "engine": "verus+kani",
+        "technique": V + " (write_col/end_row: NULL bitmap bit-vector lemmas, row = 0x00 ++ bitmap ++ values, for any column count) + " + K + " (every to_mysql_bin implementation, symbolic value x column type x flags)",
+        "design_ref": "DESIGN.md section 6 C07",
+        "text": "RowWriter is proved to build binary rows as [0x00] ++ bitmap ++ encodings with bit (i+2)%8 of byte (i+2)/8 set iff cell i is NULL, bitmap length (n+9)/8, NOT NULL columns refuse NULL, too many columns refused; each encoder is proved by CBMC to write exactly the protocol's fixed-width/length-encoded/temporal form or to return Err with nothing written, never to panic.",
+        "note": "Assumed in Verus: the abstract ToMysqlValue contract (the Kani harnesses discharge it per implementing type); Vec sink. RowWriter::write_row assumed. After a write_col error the row writer's state is unspecified (a retry may produce a malformed row; see DESIGN.md D16).",
+    },
+    "C08": {
+        "engine": "verus+kani",
+        "technique": V + " (Params::next against a functional spec of the EXECUTE parameter block) + " + K + " (execute offsets; ValueInner::parse_from for every type code; From<Value> conversions)",
+        "design_ref": "DESIGN.md section 6 C08",
+        "text": "Params::next is proved, for every well-formed block, to split the NULL bitmap, consume the flag byte, rebind types when present, and yield per parameter NULL / long data / the inline value consuming exactly its bytes, exactly n items. parse_from is proved for all type codes and both signedness flags (value, bytes consumed, Err on short input); conversions to integers, floats, bytes, NaiveDate, NaiveDateTime (4/7/11-byte forms incl. microseconds) and Duration (0/8/12) yield the encoded value.",
+        "note": "Seam: Value::parse_from is a stub in the Verus unit with an uninterpreted value_len; the Kani K3 harnesses prove the concrete facts. HashMap model (vstd).",
+    },
+    "C09": {
+        "engine": "verus+kani",
+        "technique": V + " (write_column_definitions loop invariant over any number of columns; column_definitions; write_prepare_ok; StatementMetaWriter::reply) + " + K + " (lenenc writers)",
+        "design_ref": "DESIGN.md section 6 C09",
+        "text": "For any column list the emitted packets are exactly [lenenc(count)] ++ coldef41(c) for each c ++ EOF, and for PREPARE the prepare_ok header with the two counts followed by parameter and column definitions; coldef41 is the protocol's ColumnDefinition41 over the declared table, name, type code and flags.",
+        "note": "Precondition: at most 65535 columns/parameters in a PREPARE reply (16-bit protocol fields; the code truncates silently beyond). Iterator arguments other than slices/arrays are outside the proof (rule R8). String::as_bytes assumed.",
+    },
+    "C10": {
+        "engine": "verus",
+        "technique": V + ": whole-map postconditions on reply/error and on every arm of run (reg_step), HashMap helper specs",
+        "design_ref": "DESIGN.md section 6 C10",
+        "text": "reply inserts exactly one fresh entry (declared parameter count, no bound types, no long data) and leaves every other id unchanged; error leaves the registry unchanged; EXECUTE/SEND_LONG_DATA for an unknown id return Err before any callback or byte; CLOSE calls on_close once, removes the id, writes nothing; each served command changes the registry by exactly one reg_step.",
+        "note": "Assumed: hm_get_mut / hm_append wrappers of HashMap::get_mut and entry().or_insert_with().extend() with map-level specs; vstd HashMap model; shim PREPARE callbacks change the registry only through reply (prep_step).",
+    },
+    "C11": {
+        "engine": "verus+kani",
+        "technique": V + " (init: greeting bytes and conformance lemma, one flush before the first read, after_authentication exactly once, reject/accept replies; run_on calls run only after init Ok) + " + K + " (client_handshake layouts; ER_ACCESS_DENIED_ERROR = 1045/28000)",
+        "design_ref": "DESIGN.md section 6 C11",
+        "text": "init is proved to put exactly one 69-byte HandshakeV10 packet with sequence id 0 on the wire (protocol 10, NUL-terminated version, PROTOCOL_41 always, SSL bit iff the shim offers a TLS config), flushed before reading; to call after_authentication exactly once with the user name client_handshake returned; on rejection to send ERR 1045/28000 with the next sequence id, flush, and return the shim's error; on success OK. run requires the state only init's success establishes.",
+        "note": "client_handshake's user-name scan is bounded (scanned region <= 12 bytes) with nom's FindSubstring replaced by its specification (memchr's inline asm is not executable by CBMC). The greeting specification is the byte sequence plus a conformance lemma (decoder facts).",
+    },
+    "C12": {
+        "engine": "verus",
+        "technique": V + ": Transport::read requires flushed == |wire| (ghost instrumentation), PacketConn::next requires a quiescent writer; every caller must discharge it",
+        "design_ref": "DESIGN.md section 6 C12",
+        "text": "The only operation that can wait for the peer carries the precondition 'everything written is flushed and nothing is buffered'; next, run and init are proved to establish it at every call (flush after the greeting, after the auth reply, at the end of every command iteration); a complete buffered packet is served without another read.",
+        "note": "Transport contract is the model of the stream; 'answered' per command relies on C03.",
+    },
+    "C13": {
+        "engine": "verus+kani",
+        "technique": V + " (write_err payload; the four error entry points) + " + K + " (ErrorKind tables regenerated from the source each run)",
+        "design_ref": "DESIGN.md section 6 C13",
+        "text": "write_err emits exactly 0xFF ++ le16(code) ++ '#' ++ sqlstate ++ message; InitWriter::error, StatementMetaWriter::error, QueryResultWriter::error and RowWriter::finish_error pass kind and message through unchanged after the owed terminator / open row; for every defined code ErrorKind::from(code) as u16 == code and sqlstate() is five bytes of [0-9A-Z].",
+        "note": "`err as u16` is modelled as an uninterpreted code() in Verus and checked by Kani. SQLSTATE values have no external oracle offline. Quick tier checks codes 1000..1099 and the kinds the library emits; thorough all defined codes.",
+    },
+    "C14": {
+        "engine": "verus+kani",
+        "technique": V + " (write_ok_packet payload; complete_one/completed remember and emit (rows, id); zero-column count) + " + K + " (write/read_lenenc_int inverse for all u64)",
+        "design_ref": "DESIGN.md section 6 C14",
+        "text": "OK packets are exactly 0x00 ++ lenenc(rows) ++ lenenc(id) ++ status ++ 00 00; completed/complete_one emit the given pair in the given order; a zero-column resultset finishes with OK(number of rows ended, 0); lenenc round-trips for every u64.",
+        "note": "Same trusted base as C03.",
+    },
     "C15": {
         "engine": "kani",
         "technique": "Kani/CBMC contract harness per integer encoder, loop-free, full 8..64-bit symbolic domain (complete proof, counterexample replayed natively)",
@@ -24,6 +134,36 @@ CLAIMS = {
         "text": "Proof for all values, all column type codes and both signedness flags: for each of the ten Rust integer types and the generic Int/UInt values the real to_mysql_bin is executed symbolically by CBMC against the contract {Ok => exactly width bytes and little-endian decode == value; whole-type-fits => Ok; pointer-sized value fits => Ok; non-integer column => Err; Err => nothing written}. No bound: the harnesses are loop-free over full-width bit-vectors.",
         "note": "Trusted: CBMC/Kani's model of Rust and of byteorder's write_* on the sink; std::fmt::format stubbed (error message text only); the sink is a 16-byte all-or-nothing Write (the real sink is Vec<u8>).",
     },
+    "C16": {
+        "engine": "verus",
+        "technique": V + ": Params::next header step (rebind replaces, reuse keeps and consumes the flag byte) + hub registry steps (only the executed statement's entry is borrowed)",
+        "design_ref": "DESIGN.md section 6 C16",
+        "text": "Flag non-zero: bound types become exactly the n new pairs; flag zero: bound types unchanged and values decoded from the byte after the flag with the remembered types; ParamParser::new borrows only the executed statement's bound_types; every other statement's entry is unchanged in every arm of run; reply resets an id.",
+        "note": "Binding happens inside Params::next, i.e. when the shim iterates the parameters.",
+    },
+    "C17": {
+        "engine": "verus+kani",
+        "technique": V + " (hm_append chunk concatenation, clear after execute, long-data override in Params::next) + " + K + " (send_long_data offsets)",
+        "design_ref": "DESIGN.md section 6 C17",
+        "text": "SEND_LONG_DATA appends the chunk to (stmt, param) and changes nothing else, writes nothing, calls nothing; after on_execute returns Ok the statement's long data is empty and other statements are untouched; a parameter with pending long data is delivered as those bytes without consuming the inline stream.",
+        "note": "Same HashMap assumptions as C10.",
+    },
+    "C19": {
+        "engine": "verus",
+        "technique": V + ": every Transport operation may return Err (fault at every operation index); error propagation and no-panic obligations of all units; callbacks require !faulted",
+        "design_ref": "DESIGN.md section 6 C19",
+        "text": "Against a transport whose every read/write/flush may fail, every function of U1-U5 is proved panic-free and to return Err when a callee fails; EOF inside a packet is an error, EOF at a boundary ends run with Ok; shim callbacks are only started on an unfaulted connection; shim errors are returned as they are.",
+        "note": "KNOWN FINDINGS (not repaired): the two Drop bodies unwrap() I/O results (D10/D11). Drops of locals on error paths are not modelled. run_on's Ok-iff clause is structural (the loop leaves only via Ok(None) or QUIT).",
+    },
+    "C20": {
+        "engine": "verus+kani",
+        "technique": K + " (panic-freedom of fullpacket/onepacket/parse/client_handshake/parse_from on all inputs) + " + V + " (next terminates and never panics; run/init never panic; Params::next without precondition)",
+        "design_ref": "DESIGN.md section 6 C20",
+        "text": "All functions that touch client bytes are proved free of panics and non-terminating loops for every byte string: CBMC's built-in checks on the nom parsers and the value decoder with symbolic contents and lengths, Verus's implicit obligations plus decreases clauses on next and run.",
+        "note": "KNOWN FINDINGS (not repaired): five panic sites in Params::next reachable with a malformed EXECUTE payload when the shim iterates the parameters (D9). packet() panic-freedom is bounded (native enumeration). client_handshake scan bounded.",
+    },
 }
 
-NOT_APPLICABLE = {}
+NOT_APPLICABLE = {
+    "C18": "check not built yet in this session: the library-side hand-over obligations (U1 switch_to_tls, U5 init order) are verified as part of U1/U5 but the PrependedReader/SwitchableConn routing (K7) is not; rustls itself would be trusted in any case (DESIGN.md section 6 C18)",
+}
